@@ -197,7 +197,7 @@ fn cache() -> &'static Mutex<HashMap<u64, Option<Arc<Baseline>>>> {
     C.get_or_init(|| Mutex::new(HashMap::new()))
 }
 
-fn cached_baseline<B: FA, H: ElementHasher<BaseField = B> + Send + Sync>(shape: &Shape, budget: usize) -> Result<Option<Arc<Baseline>>, Fail> {
+pub fn cached_baseline<B: FA, H: ElementHasher<BaseField = B> + Send + Sync>(shape: &Shape, budget: usize) -> Result<Option<Arc<Baseline>>, Fail> {
     let key = vf_core::hash_str(&serde_json::to_string(shape).unwrap_or_default());
     if let Some(b) = cache().lock().unwrap().get(&key) {
         return Ok(b.clone());
@@ -230,7 +230,7 @@ fn flip_one<B: FA, H: ElementHasher<BaseField = B> + Send + Sync>(c: &FlipCase, 
     count(&v, &what, obs)
 }
 
-fn basket(count: usize, seed: u64) -> Vec<Shape> {
+pub fn basket(count: usize, seed: u64) -> Vec<Shape> {
     let mut bytes = [0u8; 32];
     bytes[..8].copy_from_slice(&seed.to_le_bytes());
     bytes[8] = 0xC3;
